@@ -34,12 +34,14 @@ type TypeExpr struct {
 }
 
 type Field struct {
-	ID    int
-	Name  string
-	T     TypeExpr
-	Attrs []Attr
-	Annos []Attr
-	Doc   string
+	ID      int
+	Name    string
+	T       TypeExpr
+	Attrs   []Attr
+	Annos   []Attr
+	Doc     string
+	List    *SizeSpec // name(a..b) <: T : a list of T
+	Inplace []*Field  // name <: followed by nested fields: an in-place tuple type "<Type>.<name>"
 }
 
 type EnumItem struct {
@@ -124,11 +126,12 @@ type PathSeg struct {
 
 // Member is one declaration inside an application body.
 type Member struct {
-	Type  *Type
-	Ep    *Endpoint // simple endpoint, event or subscription
-	Rest  *RestNode
-	Mixin []string
-	Anno  *Attr
+	Type      *Type
+	Ep        *Endpoint // simple endpoint, event or subscription
+	Rest      *RestNode
+	Mixin     []string
+	Anno      *Attr
+	Collector []*Stmt // `.. * <- *:` block: action (Text = endpoint name) or call statements, each with attributes
 }
 
 type App struct {
